@@ -36,6 +36,7 @@ print(len(impls), "trait impls")
 # branch-free bodies: normal forms per configuration ("*" when identical in every configuration that has the body)
 from sa.rules import summary as _summary
 summ = {}
+constn = {}
 for cfg, prog in facts.load_many(list(facts.CONFIGS)).items():
     for path, fs in prog.by_path.items():
         if len(fs) != 1 or fs[0].derived or "closure" in path:
@@ -50,6 +51,10 @@ for cfg, prog in facts.load_many(list(facts.CONFIGS)).items():
         if len(s_) > 14:
             continue
         summ.setdefault(path, {})[cfg] = s_
+        if "Const" in (f.kind or ""):
+            cn_ = _summary.const_normal(prog, f)
+            if cn_ is not None:
+                constn.setdefault(path, set()).add(cn_)
 outs = {}
 for path, per in summ.items():
     vals = list(per.values())
@@ -57,6 +62,8 @@ for path, per in summ.items():
         outs[path] = {"*": vals[0], "in": sorted(per)}
     else:
         outs[path] = per
+    if len(constn.get(path, ())) == 1:
+        outs[path]["const_normal"] = list(constn[path])[0]
 json.dump(outs, open(os.path.join(os.path.dirname(os.path.abspath(__file__)), "sa", "ref_summaries.json"), "w"), indent=0, sort_keys=True)
 print(len(outs), "branch-free bodies,", sum(1 for v in outs.values() if "*" not in v), "configuration dependent")
 
